@@ -107,3 +107,14 @@ Print Assumptions C03_tamper_request_needs_collision.
 Print Assumptions C03_new_layout.
 Print Assumptions C03_response_copies.
 Print Assumptions C03_md5_instance.
+
+From Radius Require Import Proofs.Oracles.
+Theorem C03_oracles : forall H p r q sec,
+  encode H p = spec_encode H (code p) (ident p) (auth p) (secret p) (pattrs p) /\
+  is_authentic_response H r q sec = spec_is_authentic_response H r q sec /\
+  is_authentic_request H q sec = spec_is_authentic_request H q sec.
+Proof.
+  intros; repeat split;
+    [apply encode_eq_spec | apply is_authentic_response_eq_spec | apply is_authentic_request_eq_spec].
+Qed.
+Print Assumptions C03_oracles.
